@@ -35,7 +35,30 @@ func C13(c *mc.Ctx) {
 		Check: func(x mc.Instance, path []string) { c13Check(c, x.(*slInst), path) },
 	}
 	b.Run()
-	c.Set("rule", "BFS over StateLedger op sequences (set/del/add/get/balance/nonce/code/snapshot/revert/finalise/commit/reopen/cache-purge) on 2 accounts x keys {a,ab,b} x values {x,y,z,empty}; a state is distinct by the canonical dump of every in-memory ledger field + store content + reference model; every getter and 3 prefix queries are compared with the reference in every distinct state")
+	// the same exploration started from a state with committed content (deletions, snapshots
+	// and reverts of keys that already live in the store need no moves to get there)
+	prefix := []string{"set A a x", "set A ab y", "code A c1", "commit"}
+	b2 := &mc.BFS{C: c, Name: "ledgermc-from-committed", MaxDepth: depth - 1,
+		Init: func() mc.Instance {
+			in := newSLInst()
+			for _, op := range prefix {
+				if !in.apply(op) {
+					panic("c13 prefix not applicable: " + op)
+				}
+			}
+			return in
+		},
+		Enabled: func(in mc.Instance, d int) []string { return ops },
+		Apply: func(in mc.Instance, op string, path []string) (bool, bool) {
+			return in.(*slInst).apply(op), false
+		},
+		Key: func(in mc.Instance) string { return in.(*slInst).key() },
+		Check: func(x mc.Instance, path []string) {
+			c13Check(c, x.(*slInst), append(append([]string{}, prefix...), path...))
+		},
+	}
+	b2.Run()
+	c.Set("rule", "BFS over StateLedger op sequences (set/del/add/get/balance/nonce/code/snapshot/revert/finalise/commit/reopen/cache-purge) on 2 accounts x keys {a,ab,b} x values {x,y,z,empty}; a state is distinct by the canonical dump of every in-memory ledger field + store content + reference model; every getter and 3 prefix queries are compared with the reference in every distinct state; a second BFS starts from a state in which two keys and code of account A are already committed")
 	c.Assume("memkv has goleveldb's observable semantics (nil for missing key, non-nil empty slice for empty value, atomic batches)")
 	c.Assume("Snapshot/Revert are used inside one transaction (Finalise at its end), AddState only on fresh keys or after a read of the same key and outside snapshot scopes, reopen only between blocks — as the executor does")
 	if c.Get("states_with_live_keys") == 0 {
